@@ -5,7 +5,7 @@ PROPERTY = "C03"
 STATEFUL = True
 READY = True
 THEOREMS = ["C03.recCheck_iff", "C03.accepted_no_cycle", "C03.user_cycle_iff", "C03.accepted_user_acyclic",
-            "C03.rejected_user_cyclic", "C03.stack_bound", "C03.stack_bound_parse",
+            "C03.rejected_user_cyclic", "C03.ctor_recursive_iff", "C03.stack_bound", "C03.stack_bound_parse",
             "C03.run_terminates", "C03.parse_terminates", "C03.parse_total", "C03.parse_from_total"]
 RULE = ("one case = one generated grammar (unbiased / mostly non-left-recursive / shaped / LL(1)-ish / hidden-recursion / DFS-bookkeeping "
         "generators, names permuted), constructed with smart_factorization True and False, each followed by every token "
@@ -17,8 +17,8 @@ TRUSTED = ["re (lexemes are found by the harness with the tokenizer's own patter
            "((|tokens|+1)*(symbols+3)); a line-event budget (constructor 10^6, parse 3*10^7) is only a backstop"]
 ASSUMPTIONS = ["'GrammarIsRecursive is raised exactly when ...' is a theorem at the level of the recursion check and of the user's "
                "dictionary (C03.recCheck_iff + C03.user_cycle_iff: cycle of the factorised dictionary <=> cycle of the user's "
-               "productions w.r.t. their least nullable set); that the earlier stages of the constructor never raise "
-               "GrammarIsRecursive themselves is covered by the correspondence only"]
+               "productions w.r.t. their least nullable set) and of the constructor (C03.ctor_recursive_iff, with the success of "
+               "the earlier stages as explicit hypotheses: their failures are other exception classes)"]
 BUDGET = 1000000          # line events of the constructor
 PARSE_BUDGET = 30000000    # backstop only; the observable for a run-away parse is the stack bound
 
